@@ -6,7 +6,7 @@ import ast
 import copy
 
 from .index import ClassInfo, FuncInfo, Program, is_self_attr, walk_no_nested
-from .report import norm
+from .report import AnalysisError, norm
 from .sym import C, N, Ctx, simplify, subst
 
 
@@ -260,3 +260,194 @@ def property_body_expr(prog: Program, c: ClassInfo, name: str):
             return subst(st.value, env)
         return None
     return None
+
+
+# ------------------------------------------------------------------------------------------------------------------
+# Path summaries: every way a (loop-free at the relevant places) function can end, with locals substituted.
+class PathEnd:
+    __slots__ = ("guards", "kind", "value", "node", "effects")
+
+    def __init__(self, guards, kind, value, node, effects):
+        self.guards, self.kind, self.value, self.node, self.effects = guards, kind, value, node, effects
+
+    def __repr__(self):
+        g = " and ".join(("" if pol else "not ") + "(" + ast.unparse(t) + ")" for t, pol in self.guards)
+        return f"<{self.kind} {ast.unparse(self.value) if self.value is not None else None} if {g or 'True'}>"
+
+
+def _subst_env(node, env):
+    import copy as _copy
+
+    class S(ast.NodeTransformer):
+        def visit_Name(self, n):
+            if isinstance(n.ctx, ast.Load) and n.id in env:
+                return _copy.deepcopy(env[n.id])
+            return n
+
+        def _comp(self, n):
+            bound = {x.id for g in n.generators for x in ast.walk(g.target) if isinstance(x, ast.Name)}
+            saved = {b: env.pop(b) for b in list(bound) if b in env}
+            try:
+                self.generic_visit(n)
+            finally:
+                env.update(saved)
+            return n
+
+        visit_ListComp = visit_GeneratorExp = visit_SetComp = visit_DictComp = _comp
+
+    return S().visit(_copy.deepcopy(node))
+
+
+def path_returns(fn, limit=256):
+    """Enumerate the ends of a function: [(guards, 'return'|'raise'|'fall', value expr with locals substituted)].
+    Loops are entered once (their assignments make the assigned names opaque afterwards); `effects` lists the expression
+    statements (calls) met on the path, substituted."""
+    out = []
+
+    def run(stmts, env, guards, effects, k):
+        """k: continuation called with (env, guards, effects) when the block falls through"""
+        if not stmts:
+            return k(env, guards, effects)
+        st, rest = stmts[0], stmts[1:]
+        if len(out) > limit:
+            raise AnalysisError(f"{fn.name}: more than {limit} paths")
+        nxt = lambda e, g, f: run(rest, e, g, f, k)
+        if isinstance(st, ast.Return):
+            out.append(PathEnd(guards, "return", _subst_env(st.value, env) if st.value is not None else None, st, effects))
+            return
+        if isinstance(st, ast.Raise):
+            out.append(PathEnd(guards, "raise", _subst_env(st.exc, env) if st.exc is not None else None, st, effects))
+            return
+        if isinstance(st, (ast.Assign, ast.AnnAssign)):
+            val = st.value
+            tg = st.targets if isinstance(st, ast.Assign) else [st.target]
+            env = dict(env)
+            if val is not None:
+                v = _subst_env(val, env)
+                for t in tg:
+                    if isinstance(t, ast.Name):
+                        env[t.id] = v
+                    elif isinstance(t, ast.Tuple) and isinstance(v, ast.Tuple) and len(t.elts) == len(v.elts):
+                        for a, b in zip(t.elts, v.elts):
+                            if isinstance(a, ast.Name):
+                                env[a.id] = b
+                    else:
+                        for x in ast.walk(t):
+                            if isinstance(x, ast.Name) and isinstance(x.ctx, ast.Store):
+                                env[x.id] = ast.Name(id=f"?{x.id}", ctx=ast.Load())
+                        if not isinstance(t, ast.Name):
+                            effects = effects + [ast.Assign(targets=[_subst_env(t, env)], value=v, lineno=st.lineno)]
+            return nxt(env, guards, effects)
+        if isinstance(st, ast.AugAssign):
+            env = dict(env)
+            if isinstance(st.target, ast.Name):
+                cur = env.get(st.target.id, ast.Name(id=st.target.id, ctx=ast.Load()))
+                env[st.target.id] = ast.BinOp(left=cur, op=st.op, right=_subst_env(st.value, env))
+            else:
+                effects = effects + [_subst_env(st, env)]
+            return nxt(env, guards, effects)
+        if isinstance(st, ast.If):
+            t = _subst_env(st.test, env)
+            run(st.body, env, guards + [(t, True)], effects, nxt)
+            run(st.orelse, env, guards + [(t, False)], effects, nxt)
+            return
+        if isinstance(st, (ast.For, ast.While)):
+            env2 = dict(env)
+            for x in ast.walk(st):
+                if isinstance(x, ast.Name) and isinstance(x.ctx, ast.Store):
+                    env2[x.id] = ast.Name(id=f"?{x.id}", ctx=ast.Load())
+            hdr = _subst_env(st.iter if isinstance(st, ast.For) else st.test, env)
+            # ends reached from inside the loop body
+            run(st.body, env2, guards + [(ast.Call(func=ast.Name(id="__loop__", ctx=ast.Load()), args=[hdr], keywords=[]), True)], effects, lambda e, g, f: None)
+            eff = effects + [ast.Expr(value=ast.Call(func=ast.Name(id="__loop__", ctx=ast.Load()), args=[hdr], keywords=[]))]
+            return run(st.orelse, env2, guards, eff, nxt)
+        if isinstance(st, ast.Try):
+            run(st.body + st.orelse, env, guards, effects, lambda e, g, f: run(st.finalbody, e, g, f, nxt))
+            env2 = dict(env)
+            for x in ast.walk(ast.Module(body=st.body, type_ignores=[])):
+                if isinstance(x, ast.Name) and isinstance(x.ctx, ast.Store):
+                    env2[x.id] = ast.Name(id=f"?{x.id}", ctx=ast.Load())
+            for hd in st.handlers:
+                ex = ast.Call(func=ast.Name(id="__except__", ctx=ast.Load()), args=[hd.type] if hd.type is not None else [], keywords=[])
+                run(hd.body, env2, guards + [(ex, True)], effects, lambda e, g, f: run(st.finalbody, e, g, f, nxt))
+            return
+        if isinstance(st, ast.With):
+            env = dict(env)
+            for it in st.items:
+                ce = _subst_env(it.context_expr, env)
+                effects = effects + [ast.Expr(value=ce)]
+                if isinstance(it.optional_vars, ast.Name):
+                    env[it.optional_vars.id] = ast.Name(id=f"?{it.optional_vars.id}", ctx=ast.Load())
+            return run(st.body, env, guards, effects, nxt)
+        if isinstance(st, ast.Expr):
+            if not (isinstance(st.value, ast.Constant)):
+                effects = effects + [ast.Expr(value=_subst_env(st.value, env))]
+            return nxt(env, guards, effects)
+        if isinstance(st, ast.Assert):
+            return run(rest, env, guards + [(_subst_env(st.test, env), True)], effects, k)
+        return nxt(env, guards, effects)
+
+    def fall(env, guards, effects):
+        out.append(PathEnd(guards, "fall", None, fn, effects))
+
+    run(list(fn.body), {}, [], [], fall)
+    return out
+
+
+def split_ifexp(expr):
+    """[(conds, leaf expr)] for nested conditional expressions"""
+    if isinstance(expr, ast.IfExp):
+        out = []
+        for c, e in split_ifexp(expr.body):
+            out.append(([(expr.test, True)] + c, e))
+        for c, e in split_ifexp(expr.orelse):
+            out.append(([(expr.test, False)] + c, e))
+        return out
+    return [([], expr)]
+
+
+def return_leaves(fn):
+    """all (guards, value) a function can return, conditional expressions split"""
+    out = []
+    for pe in path_returns(fn):
+        if pe.kind == "return" and pe.value is not None:
+            for c, e in split_ifexp(pe.value):
+                out.append((pe.guards + c, e, pe))
+        elif pe.kind in ("return", "fall"):
+            out.append((pe.guards, None, pe))
+    return out
+
+
+def inline_self_calls(prog, cls, expr, depth=3):
+    """replace self.m(args) by the body expression of m when m is a plain method of cls consisting of a single return"""
+    import copy as _copy
+    if depth == 0:
+        return expr
+
+    class X(ast.NodeTransformer):
+        def visit_Call(self, n):
+            self.generic_visit(n)
+            f = n.func
+            if isinstance(f, ast.Attribute) and isinstance(f.value, ast.Name) and f.value.id == "self":
+                ms = prog.lookup_method(cls, f.attr)
+                if ms is not None and ms.kind == "method":
+                    body = [s for s in ms.node.body if not (isinstance(s, ast.Expr) and isinstance(s.value, ast.Constant))]
+                    if len(body) == 1 and isinstance(body[0], ast.Return) and body[0].value is not None:
+                        params = [a.arg for a in ms.node.args.args][1:]
+                        defaults = ms.node.args.defaults
+                        env = {}
+                        dmap = dict(zip(params[len(params) - len(defaults):], defaults))
+                        for p, a in zip(params, n.args):
+                            env[p] = a
+                        for kw in n.keywords:
+                            if kw.arg in params:
+                                env[kw.arg] = kw.value
+                        for p in params:
+                            if p not in env:
+                                if p not in dmap:
+                                    return n
+                                env[p] = dmap[p]
+                        return inline_self_calls(prog, cls, _subst_env(body[0].value, env), depth - 1)
+            return n
+
+    return X().visit(_copy.deepcopy(expr))
